@@ -27,7 +27,7 @@ class C09(core.Check):
         'cycle:2', 'cycle:3', 'cycle:4', 'use-before-define', 'double:isa+isa', 'double:isa+cli', 'double:isa+define',
         'double:cli+cli', 'double:cli+define', 'double:define+define', 'expands-to:register', 'expands-to:label',
         'expands-to:expression', 'source:isa', 'source:cli', 'source:define', 'unparenthesised-expression-value', 'double:identical-text',
-        'quoted-value-used', 'quoted-value-with-blank-run', 'valueless-symbol-used', 'define-while-muted', 'same-line-text-repeated', 'quoted-value-from:isa', 'quoted-value-from:cli', 'quoted-value-from:define']}
+        'cycle:replacement-is-the-bare-name-itself', 'quoted-value-used', 'quoted-value-with-blank-run', 'valueless-symbol-used', 'define-while-muted', 'same-line-text-repeated', 'quoted-value-from:isa', 'quoted-value-from:cli', 'quoted-value-from:define']}
 
     def build(self, rng, mode, quoted=None, muted=None, nil=None):
         tags = set()
@@ -71,7 +71,14 @@ class C09(core.Check):
             cyc = order[:n]
             for i, nm in enumerate(cyc):
                 nxt = cyc[(i + 1) % n]
-                defs.append((nm, rng.choice([nxt, f'{nxt} + 1', f'({nxt})']), None))
+                txt_c = rng.choice([nxt, nxt, f'{nxt} + 1', f'({nxt})'])
+                if n == 1 and txt_c == nm:
+                    tags.add('cycle:replacement-is-the-bare-name-itself')
+                    # a constant of the same name exists: leaving the symbol unexpanded would quietly give the line a value
+                    v_self = rng.randrange(300, 400)
+                    pre_lines.append(f'{nm} = {v_self}')
+                    env[nm] = v_self
+                defs.append((nm, txt_c, None))
             tags.add(f'cycle:{n}')
             rest = order[n:]
         else:
